@@ -35,6 +35,7 @@ type PipeResult struct {
 	Target      any
 	Log, Out    string
 	File        *simio.SimFile
+	LogW, OutW  *simio.SimWriter // ungated once the bubble is left
 	FS          simio.FileStats
 	Steps       int
 	Choices     []int
@@ -166,7 +167,7 @@ func optsOf(o int, out, log *simio.SimWriter) []bcl.Option {
 	}
 }
 
-const maxSteps = 20000
+const maxSteps = 200000
 
 // RunPipe executes the scenario's file-variant call inside a synctest bubble
 // under the seam scheduler. If sc.Choices is non-nil it is replayed,
@@ -195,6 +196,7 @@ func RunPipe(t *testing.T, sc *Scenario, capture bool, record bool) *PipeResult 
 			logw := simio.NewSimWriter(s, simio.OLog, sc.GateLog)
 			outw := simio.NewSimWriter(s, simio.OOut, sc.GateOut)
 			res.File = f
+			res.LogW, res.OutW = logw, outw
 			var returned atomic.Bool
 			go func() {
 				defer func() {
@@ -277,6 +279,8 @@ func RunPipe(t *testing.T, sc *Scenario, capture bool, record bool) *PipeResult 
 			if capture {
 				res.Stacks = bubbleStacks()
 			}
+			logw.Ungate()
+			outw.Ungate()
 			if res.StepLimit {
 				// let everything drain so that the bubble can be left
 				for i := 0; i < 1<<20; i++ {
@@ -375,6 +379,7 @@ func EventStrings(ev []simio.Event) []string {
 
 // ParseMem is the in-memory baseline: bcl.Parse under recover.
 type MemResult struct {
+	LogBuf, OutBuf *bytes.Buffer
 	Prog     *bcl.Prog
 	Err      error
 	ErrText  string
@@ -385,15 +390,15 @@ type MemResult struct {
 }
 
 func ParseMem(src []byte, name string, opts int) *MemResult {
-	r := &MemResult{}
-	var logw, outw bytes.Buffer
+	r := &MemResult{LogBuf: &bytes.Buffer{}, OutBuf: &bytes.Buffer{}}
+	logw, outw := r.LogBuf, r.OutBuf
 	func() {
 		defer func() {
 			if x := recover(); x != nil {
 				r.Panic = fmt.Sprint(x)
 			}
 		}()
-		r.Prog, r.Err = bcl.Parse(src, name, bcl.OptOutput(&outw), bcl.OptLogger(&logw),
+		r.Prog, r.Err = bcl.Parse(src, name, bcl.OptOutput(outw), bcl.OptLogger(logw),
 			bcl.OptDisasm(opts&OptDisasm != 0), bcl.OptStats(opts&OptStats != 0))
 	}()
 	if r.Err != nil {
